@@ -47,6 +47,13 @@ def _with_var(fn_node, pred) -> Tuple[Optional[ast.With], Optional[str]]:
     return None, None
 
 
+def is_neg1(t) -> bool:
+    t0 = t
+    if t0.op == "const":
+        return t0.args[0] == -1
+    return t0.op == "unop" and t0.args[0] == "-" and t0.args[1].op == "const" and t0.args[1].args[0] == 1
+
+
 def fcidump(ctx):
     """Writer/reader agreement for FCIDUMP_chol.  Local variable names carry no meaning here: datasets are matched by
     their string keys, header fields by the parameter of write_dqmc they are built from (writer) and by the way they
@@ -67,24 +74,34 @@ def fcidump(ctx):
             k = _str_const(nd.targets[0].slice)
             if k:
                 written[k] = nd.value
-    fblock, rf = _with_var(rnode, lambda c: bool(c.args) and _str_const(c.args[0]) == "FCIDUMP_chol")
-    if fblock is None:
-        raise AnalysisError("_prep_afqmc no longer opens FCIDUMP_chol")
-    read: Dict[str, ast.AST] = {}
-    header_targets = None
-    for nd in ast.walk(fblock):
-        if isinstance(nd, ast.Subscript) and isinstance(nd.value, ast.Name) and nd.value.id == rf:
-            k = _str_const(nd.slice)
-            if k:
-                read[k] = nd
-        if isinstance(nd, ast.Call) and isinstance(nd.func, ast.Attribute) and nd.func.attr == "get" and \
-                isinstance(nd.func.value, ast.Name) and nd.func.value.id == rf and nd.args:
-            k = _str_const(nd.args[0])
-            if k:
-                read[k] = nd
-        if isinstance(nd, ast.Assign) and isinstance(nd.targets[0], (ast.List, ast.Tuple)) and \
-                isinstance(nd.value, ast.Subscript) and _str_const(nd.value.slice) == "header":
-            header_targets = [e.id for e in nd.targets[0].elts if isinstance(e, ast.Name)]
+    # ---- reader side, on the value graph of _prep_afqmc with its private helpers evaluated in place: local names, the
+    # helper the reading was moved to and the container the values travel in (tuple, NamedTuple) play no role
+    from ..rules import common as C_
+    from ..symex import array_fn, call_parts, func_name, strip_wrappers, subterms, getitem as G_, const as K_
+    rev, rfr = C_.eval_with_terms(p, rd)
+    terms = C_.all_terms(rev)
+    FH = [t for t in terms if t.op == "enter" and t.args[0].op == "call" and (func_name(t.args[0]) or "").endswith("File")
+          and call_parts(t.args[0])[1] and call_parts(t.args[0])[1][0].op == "const"
+          and call_parts(t.args[0])[1][0].args[0] == "FCIDUMP_chol"]
+    if not FH:
+        ctx.rep.note("_prep_afqmc (with its helpers): no `with h5py.File('FCIDUMP_chol') as f` found; the FCIDUMP_chol "
+                     "reader rules do not apply")
+        return
+    fh = FH[0]
+
+    def dataset(t):
+        """name of the FCIDUMP_chol dataset term t reads, else None"""
+        if t.op == "getitem" and t.args[0] is fh and t.args[1].op == "const" and isinstance(t.args[1].args[0], str):
+            return t.args[1].args[0]
+        if t.op == "call" and t.args[0].op == "attr" and t.args[0].args[0] is fh and t.args[0].args[1] == "get" and \
+                call_parts(t)[1] and call_parts(t)[1][0].op == "const":
+            return call_parts(t)[1][0].args[0]
+        return None
+    read = {}
+    for t in terms:
+        k = dataset(t)
+        if isinstance(k, str):
+            read[k] = t
     missing = sorted(k for k in read if k not in written)
     ctx.ob("KEYS-2", "FCIDUMP_chol: every dataset the reader opens is written", not missing and len(read) >= 4,
            f"reader opens {sorted(read)}; writer creates {sorted(written)}" + (f"; missing {missing}" if missing else ""), rd)
@@ -101,38 +118,67 @@ def fcidump(ctx):
                 w_roles.append("n" + e.value.value.id)
             else:
                 w_roles.append("?")
-    r_roles: Dict[str, str] = {}
-    split_ok = False
-    for nd in ast.walk(rnode):
-        # ((N + abs(M)) // 2, (N - abs(M)) // 2)
-        if isinstance(nd, ast.Tuple) and len(nd.elts) == 2 and all(
-                isinstance(e, ast.BinOp) and isinstance(e.op, ast.FloorDiv) and isinstance(e.right, ast.Constant)
-                and e.right.value == 2 and isinstance(e.left, ast.BinOp) for e in nd.elts):
-            l0, l1 = nd.elts[0].left, nd.elts[1].left
+    H = read.get("header")
 
-            def parts(x):
-                if isinstance(x.left, ast.Name) and isinstance(x.right, ast.Call) and dotted(x.right.func) in (
-                        "abs", "np.abs", "numpy.abs") and x.right.args and isinstance(x.right.args[0], ast.Name):
-                    return x.left.id, x.right.args[0].id, type(x.op).__name__
-                return None
-            p0, p1 = parts(l0), parts(l1)
-            if p0 and p1 and p0[:2] == p1[:2] and (p0[2], p1[2]) == ("Add", "Sub"):
-                r_roles[p0[0]] = "nelec"
-                r_roles[p0[1]] = "ms"
+    def hpos(t):
+        """position of the header field term t is (through int(.) / array wrappers), else None"""
+        t = strip_wrappers(t)
+        for _ in range(4):
+            if t.op == "call" and func_name(t) in ("builtins.int", "numpy.int64", "builtins.abs") and len(t.args) == 2 \
+                    and func_name(t) != "builtins.abs":
+                t = strip_wrappers(t.args[1])
+            else:
+                break
+        if H is not None and t.op == "getitem" and t.args[0] is H and t.args[1].op == "const" and \
+                isinstance(t.args[1].args[0], int):
+            return t.args[1].args[0]
+        return None
+    r_pos = {}
+    split_ok = False
+    for t in terms:
+        # ((N + abs(M)) // 2, (N - abs(M)) // 2)
+        if t.op == "tuple" and len(t.args) == 2:
+            halves = []
+            for e in t.args:
+                e = strip_wrappers(e)
+                if e.op == "binop" and e.args[0] == "//" and e.args[2].op == "const" and e.args[2].args[0] == 2 and \
+                        strip_wrappers(e.args[1]).op == "binop" and strip_wrappers(e.args[1]).args[0] in ("+", "-"):
+                    b_ = strip_wrappers(e.args[1])
+                    ab = strip_wrappers(b_.args[2])
+                    if ab.op == "call" and (func_name(ab) or "").split(".")[-1] in ("abs", "absolute") and call_parts(ab)[1]:
+                        halves.append((b_.args[0], hpos(b_.args[1]), hpos(call_parts(ab)[1][0])))
+            if len(halves) == 2 and halves[0][1:] == halves[1][1:] and None not in halves[0][1:] and \
+                    (halves[0][0], halves[1][0]) == ("+", "-"):
+                r_pos[halves[0][1]] = "nelec"
+                r_pos[halves[0][2]] = "ms"
                 split_ok = True
-    shape_names = set()
-    for nd in ast.walk(fblock):
-        if isinstance(nd, ast.Call) and isinstance(nd.func, ast.Attribute) and nd.func.attr == "reshape":
-            for a_ in nd.args:
-                if isinstance(a_, ast.Name):
-                    shape_names.add(a_.id)
-    if len(shape_names) == 1:
-        r_roles[next(iter(shape_names))] = "nmo"
-    reader_roles = [r_roles.get(h, "nchol" if k_ == 3 else "?") for k_, h in enumerate(header_targets or [])]
+
+    def derives_from(t, k):
+        return any(dataset(x) == k for x in subterms(t))
+
+    def reshape_dims(t):
+        """(array, [dims]) of x.reshape(d1, d2, ..) / x.reshape((d1, ..))"""
+        if t.op == "call" and t.args[0].op == "attr" and t.args[0].args[1] == "reshape":
+            dims = call_parts(t)[1]
+            if len(dims) == 1 and dims[0].op in ("tuple", "list"):
+                dims = list(dims[0].args)
+            return t.args[0].args[0], list(dims)
+        return None
+    shape_pos = set()
+    for t in terms:
+        rs = reshape_dims(t)
+        if rs is not None and (derives_from(rs[0], "hcore") or derives_from(rs[0], "chol")) and len(rs[1]) >= 2:
+            for d_ in rs[1]:
+                hp = hpos(d_)
+                if hp is not None and not (len(rs[1]) == 2 and is_neg1(rs[1][1])):
+                    shape_pos.add(hp)
+    if len(shape_pos) == 1:
+        r_pos[next(iter(shape_pos))] = "nmo"
+    reader_roles = [r_pos.get(k_, "nchol" if k_ == 3 else "?") for k_ in range(4)] if H is not None else []
     ctx.ob("KEYS-2", "FCIDUMP_chol: header fields are packed and unpacked in the same order",
-           header_targets is not None and w_roles == ["nelec", "nmo", "ms", "nchol"] and reader_roles == w_roles,
+           H is not None and w_roles == ["nelec", "nmo", "ms", "nchol"] and reader_roles == w_roles,
            f"writer packs {w_roles}; reader uses its four header values as {reader_roles}", wd)
-    nmo_name = next(iter(shape_names)) if len(shape_names) == 1 else None
+    nmo_pos = next(iter(shape_pos)) if len(shape_pos) == 1 else None
 
     # layout
     def flat(k):
@@ -141,19 +187,21 @@ def fcidump(ctx):
             and not v.args
 
     def reshaped(k, want):
-        for nd in ast.walk(fblock):
-            if isinstance(nd, ast.Call) and isinstance(nd.func, ast.Attribute) and nd.func.attr == "reshape":
-                if any(_str_const(c) == k for c in ast.walk(nd.func.value)):
-                    return [ast.unparse(a_) for a_ in nd.args] == want
+        """the array read from dataset k is reshaped to `want` ('n' = the header's nmo field, -1 = the literal)"""
+        for t in terms:
+            rs = reshape_dims(t)
+            if rs is not None and derives_from(rs[0], k) and not any(reshape_dims(x) is not None for x in subterms(rs[0])):
+                got = ["n" if hpos(d_) == nmo_pos and nmo_pos is not None else (-1 if is_neg1(d_) else "?") for d_ in rs[1]]
+                return got == want
         return False
 
     chol_2d = any(isinstance(nd, ast.Assert) and "len(chol.shape) == 2" in ast.unparse(nd.test)
                   for nd in ast.walk(wnode))
     ctx.ob("KEYS-2", "FCIDUMP_chol: hcore written flat row-major, read back as (nmo, nmo)",
-           flat("hcore") and nmo_name is not None and reshaped("hcore", [nmo_name, nmo_name]),
+           flat("hcore") and nmo_pos is not None and reshaped("hcore", ["n", "n"]),
            "flatten() <-> reshape(nmo, nmo)", wd)
     ctx.ob("KEYS-2", "FCIDUMP_chol: chol (nchol, nmo^2) written flat, read back as (-1, nmo, nmo)",
-           flat("chol") and chol_2d and nmo_name is not None and reshaped("chol", ["-1", nmo_name, nmo_name]),
+           flat("chol") and chol_2d and nmo_pos is not None and reshaped("chol", [-1, "n", "n"]),
            "flatten() of a 2-D array <-> reshape(-1, nmo, nmo)", wd)
     # the hcore that is read is the bare one-body matrix, not the modified one (parameters of write_dqmc)
     ctx.ob("KEYS-2", "FCIDUMP_chol: dataset 'hcore' holds the parameter hcore (not hcore_mod)",
